@@ -39,6 +39,8 @@ def jobs(tier, seed):
         add(d, LATE[:2], var="w2")
     for d in fam.f1(fam.P, "quick"):
         add(d, EARLY[:2], var="v1")
+        # the differentiation variable occurs nowhere in the expression (the partial is zero, the domain check must remain)
+        add(d, ["fwd", "fwd_early", "fwd_after_asexp", "diff_comp_at_early"], var="t")
     m = c02.masked()
     for i, d in enumerate(m):
         vs = rt.variables_of(d)
